@@ -130,7 +130,7 @@ func TestC05RealTransport(t *testing.T) {
 		t.Skip()
 	}
 	vh.ShrinkTime("5s")
-	vh.Check(t, 8, 80, func(t *rapid.T) {
+	vh.Check(t, 8, 60, func(t *rapid.T) {
 		c := c05Net{Workers: rapid.IntRange(1, 8).Draw(t, "workers"), Hits: rapid.IntRange(4, 24).Draw(t, "hits"), ServiceMS: rapid.SampledFrom([]int{0, 5, 20, 40}).Draw(t, "service"),
 			MaxConnections: rapid.SampledFrom([]int{0, 1, 2, 4}).Draw(t, "maxconns"), Connections: rapid.SampledFrom([]int{1, 2, 10000}).Draw(t, "conns"),
 			KeepAlive: rapid.Bool().Draw(t, "keepalive"), HTTP2: rapid.Bool().Draw(t, "http2"), Redirects: 10}
